@@ -2,4 +2,6 @@ pub mod report;
 pub mod term;
 pub mod rval;
 pub mod ref_feel;
+pub mod gen_core;
 pub mod engines;
+pub mod replay;
